@@ -130,6 +130,7 @@ def run(eng, rep) -> None:
     )
     rep.rule("R05.1", "one signal per layout leaf, one message per CAN binding (unconditional construction in a loop over the whole sequence)")
     rep.rule("R05.2", "signal attributes <- attributes of the same leaf: name, start(+7 iff not little), length, byte order, signedness, float marker, unit, multiplexing")
+    rep.rule("R05.4", "each bus is written to its own file: the record path is output directory / (bus name + constant suffix)")
     rep.rule("R05.3", "message attributes <- the same binding: id, name, dlc of its own layout, its signals, its bus; only CAN bindings; one result per bus")
     rep.assume("cantools' DBC printer and reader; Motorola start-bit arithmetic for non byte-aligned big-endian signals; that a packed frame decodes through the DBC needs execution")
     dbc = prog.modules.get("fcp_dbc.dbc_writer")
@@ -279,6 +280,66 @@ def run(eng, rep) -> None:
             # the dlc assignment must be unconditional in the loop (last leaf wins)
     # ---- R05.3 ---------------------------------------------------------------------
     r053(eng, rep, wd, builder)
+    r054(eng, rep, wd)
+
+
+def r054(eng, rep, wd: FuncInfo) -> None:
+    """One file per bus: the record path is an injective function of the bus name."""
+    prog, cg = eng.prog, eng.cg
+    gens = [f for f in prog.functions.values() if f.module.name.startswith("fcp_dbc") and f.name == "generate" and f.cls is not None]
+    if not gens:
+        rep.undecided("R05.4", "-", "-", "fcp_dbc Generator.generate", "not found")
+        return
+    g = gens[0]
+    found = False
+    for n in ast.walk(g.node):
+        if not isinstance(n, ast.Dict):
+            continue
+        keys = {k.value: v for k, v in zip(n.keys, n.values) if isinstance(k, ast.Constant)}
+        if "path" not in keys or "contents" not in keys:
+            continue
+        found = True
+        pexpr = keys["path"]
+        # bus variable: the name paired with the contents variable in the iteration over write_dbc's result
+        busv = None
+        for c in ast.walk(g.node):
+            tgt = c.target if isinstance(c, (ast.For, ast.comprehension)) else None
+            if isinstance(tgt, ast.Tuple) and len(tgt.elts) == 2 and all(isinstance(e, ast.Name) for e in tgt.elts) and norm(keys["contents"]) == tgt.elts[1].id:
+                busv = tgt.elts[0].id
+        if busv is None:
+            rep.undecided("R05.4", g.file, g.qual, "path <- %s" % norm(pexpr, 60), "bus variable of the (bus, contents) iteration not recognised")
+            continue
+        uses = [x for x in ast.walk(pexpr) if isinstance(x, ast.Name) and x.id == busv]
+        if not uses:
+            rep.violation("R05.4", g.file, g.qual, "path <- %s" % norm(pexpr, 60), "the file path does not depend on the bus: every bus is written to the same file (the last one wins)")
+            continue
+        lossy = [x for x in ast.walk(pexpr) if (isinstance(x, ast.Attribute) and x.attr in ("with_suffix", "with_name", "with_stem", "stem", "suffix", "replace", "split", "rsplit", "partition", "lower", "upper", "strip", "lstrip", "rstrip", "casefold", "title"))
+                 or (isinstance(x, ast.Subscript) and any(isinstance(y, ast.Name) and y.id == busv for y in ast.walk(x.value)))]
+        if lossy:
+            what = sorted({("." + x.attr) if isinstance(x, ast.Attribute) else "slice" for x in lossy})
+            rep.violation("R05.4", g.file, g.qual, "path <- %s" % norm(pexpr, 60), "the file name is derived from the bus name through %s, which maps different bus names to the same file (e.g. 'can0.body' and 'can0.chassis'): one bus file overwrites another" % ", ".join(what))
+            continue
+        # accepted injective forms: dir / (bus + const) , dir / f"{bus}const", os.path.join(dir, bus + const)
+        def name_part(e):
+            if isinstance(e, ast.BinOp) and isinstance(e.op, ast.Add):
+                return (isinstance(e.left, ast.Name) and e.left.id == busv and isinstance(e.right, ast.Constant)) or (isinstance(e.right, ast.Name) and e.right.id == busv and isinstance(e.left, ast.Constant))
+            if isinstance(e, ast.JoinedStr):
+                fv = [v for v in e.values if isinstance(v, ast.FormattedValue)]
+                return len(fv) == 1 and isinstance(fv[0].value, ast.Name) and fv[0].value.id == busv and fv[0].format_spec is None
+            if isinstance(e, ast.Name):
+                return e.id == busv
+            return False
+        ok = False
+        if isinstance(pexpr, ast.BinOp) and isinstance(pexpr.op, ast.Div):
+            ok = name_part(pexpr.right)
+        elif isinstance(pexpr, ast.Call) and (dotted(pexpr.func) or "").endswith("join") and pexpr.args:
+            ok = name_part(pexpr.args[-1])
+        if ok:
+            rep.ok("R05.4", g.file, g.qual, "path <- %s" % norm(pexpr, 60), "output directory / (bus name + constant suffix): one file per bus")
+        else:
+            rep.undecided("R05.4", g.file, g.qual, "path <- %s" % norm(pexpr, 60), "path form not recognised")
+    if not found:
+        rep.undecided("R05.4", g.file, g.qual, "file record", "no {'path':..., 'contents':...} record found in generate")
 
 
 def dlc_form(v: ast.AST, P: str, enc: str):
